@@ -33,7 +33,9 @@ Step == /\ verdict = "run" /\ (k <= Max(Len(T.a), Len(T.b)) \/ (k = 1 /\ T.aok #
              /\ verdict' = IF c = "ok" THEN "run" ELSE c
              /\ k' = IF c = "ok" THEN k + 1 ELSE k
         /\ tid' = tid
-Finish == verdict = "run" /\ k > Max(Len(T.a), Len(T.b)) /\ ~(k = 1 /\ T.aok # T.bok) /\ verdict' = "ok" /\ UNCHANGED <<tid, k>>
+\* C05: T.want = <<l, c, el, ec>> of the inserted construct (or <<>>), T.spans = spans of all implementation nodes
+SpanClause == IF T.want # <<>> /\ ~(\E i \in 1..Len(T.spans) : T.spans[i] = T.want) THEN "construct_node_does_not_span_its_text" ELSE "ok"
+Finish == verdict = "run" /\ k > Max(Len(T.a), Len(T.b)) /\ ~(k = 1 /\ T.aok # T.bok) /\ verdict' = SpanClause /\ UNCHANGED <<tid, k>>
 TNext == Step \/ Finish
 TVerdict == (verdict # "run") => CSVWrite("%1$s %2$s %3$s", <<T.id, verdict, k>>, IOEnv.VERDICT_FILE)
 =============================================================================
